@@ -144,6 +144,13 @@ int32_t jls_rd_open(struct jls_rd_s ** instance, const char * path) {
             }
         }
 
+        // walk the user data list: reading a header for repair restores an interrupted link update
+        for (int64_t ud_pos = core->user_data_head.hdr.item_next; ud_pos; ud_pos = core->chunk_cur.hdr.item_next) {
+            if (jls_raw_chunk_seek(core->raw, ud_pos) || jls_core_rd_chunk(core)) {
+                break;
+            }
+        }
+
         GOE(jls_raw_seek_end(core->raw));  // not there when no FSR signal needed repair
         GOE(jls_core_wr_end(core));
         GOE(jls_raw_close(core->raw));
